@@ -542,6 +542,10 @@ class C17(Check):
                 st["table_export_transpose"] = False
             if rng.random() < 0.2:
                 st["plot_seaborn_enabled"] = False
+            if rng.random() < 0.25:
+                # documented alternatives to metres for the trajectory plots
+                st["plot_trajectory_length_unit"] = rng.choice(["mm", "cm",
+                                                                "km"])
             if st:
                 op["settings"] = st
         if kind.startswith("cli_") and kind != "cli_generate" and (
@@ -726,10 +730,11 @@ class C17(Check):
                     fig.gca().plot([0, 1], [0, 1])
                     pc.add_figure(name, fig)
                 try:
+                    # str or pathlib.Path, like every other writer
                     if k == "lib_export":
-                        call(pc.export, str(P(op["path"])))
+                        call(pc.export, P(op["path"]))
                     else:
-                        call(pc.serialize, str(P(op["path"])))
+                        call(pc.serialize, P(op["path"]))
                 finally:
                     pc.close()
             return f
@@ -953,6 +958,18 @@ class C17(Check):
             res.aux.setdefault("unexpected", []).append(
                 f"{op['kind']}: {type(exc).__name__}: {str(exc)[:120]}")
 
+        if unexpected_exc and isinstance(exc, (
+                TypeError, AttributeError, NameError)) and (
+                    any(p in before for p in exact) or any(
+                        fnmatch.fnmatch(b, g) for b in before for g in globs)):
+            # not a refusal and not a failing disk: the writer broke down on a
+            # valid call (str or pathlib.Path destination) whose target exists
+            # - it neither asks nor replaces
+            return self._fail(op, "writer-crashed-on-existing-target",
+                              exception=f"{type(exc).__name__}: "
+                              f"{str(exc)[:160]}",
+                              path_type="pathlib.Path" if op.get("as_path")
+                              else "str")
         # a file that another job dropped into the sandbox while the operation
         # was running is an existing file from that moment on
         planted_at = {}
